@@ -202,7 +202,19 @@ QueryIssues(q, hm, h) ==
                    /\ (i > 1 => q.pages[i].offset = q.pages[i - 1].next)
                    /\ (i < Len(q.pages) => q.pages[i].next # 0)
       last == q.pages[Len(q.pages)]
-  IN  (IF dup THEN {<<"C17", <<"an action is returned twice across pages", h, q.by, q.key>>>>} ELSE {})
+      \* the amounts an action shows (amount converted to / paid out, refund or transfer outputs) are those of the recorded row
+      allActs == LET F[i \in 0..Len(q.pages)] == IF i = 0 THEN <<>> ELSE F[i - 1] \o q.pages[i].actions IN F[Len(q.pages)]
+      RowOf(a) == LET ts == hm[a.hash].txs IN CHOOSE k \in 1..Len(ts) : ts[k].idx = a.idx
+      wrongAmt == {<<a.hash, a.idx>> : a \in {allActs[i] : i \in {j \in 1..Len(allActs) :
+                       /\ allActs[j].hash \in DOMAIN hm /\ ~allActs[j].neg
+                       /\ \E k \in 1..Len(hm[allActs[j].hash].txs) : hm[allActs[j].hash].txs[k].idx = allActs[j].idx
+                       /\ LET row == hm[allActs[j].hash].txs[RowOf(allActs[j])] IN
+                            /\ ~row.toNeg
+                            /\ \/ allActs[j].toAmt # row.toAmt \/ allActs[j].fromAmt # row.fromAmt
+                               \/ Len(allActs[j].outs) # Len(row.outs)
+                               \/ \E o \in 1..Len(row.outs) : o <= Len(allActs[j].outs) /\ (allActs[j].outs[o].a # row.outs[o].a \/ allActs[j].outs[o].amt # row.outs[o].amt)}}}
+  IN  (IF wrongAmt # {} THEN {<<"C17", <<"an action returned by the API shows other amounts / outputs than the recorded row", h, q.by, q.key, wrongAmt>>>>} ELSE {})
+      \cup (IF dup THEN {<<"C17", <<"an action is returned twice across pages", h, q.by, q.key>>>>} ELSE {})
       \cup (IF {acts[i] : i \in 1..n} # exp THEN {<<"C17", <<"paged query does not return exactly the recorded actions", h, q.by, q.key, n, Cardinality(exp)>>>>} ELSE {})
       \cup (IF ~okPages \/ (last.code = 0 /\ last.next # 0) THEN {<<"C17", <<"count / offsets of the pages are inconsistent", h, q.by, q.key>>>>} ELSE {})
 ApiIssues(api, hm, ob, h) ==
